@@ -126,7 +126,7 @@ fn main() {
                 "agent_seed": rng.gen::<u32>(), "asset": if multi { rng.gen_range(0..2usize) } else { 0 },
                 "p_limit": *pick(&mut rng, &probs), "p_market": *pick(&mut rng, &probs), "p_cancel": *pick(&mut rng, &probs),
                 "rate": *pick(&mut rng, &probs), "sigma": *pick(&mut rng, &sigmas), "mu": *pick(&mut rng, &[0.0, 2.0]),
-                "vol": rng.gen_range(1..50u32), "tick_lo": rng.gen_range(1..40u32), "tick_span": rng.gen_range(1..30u32),
+                "vol": rng.gen_range(1..50u32), "tick_lo": if rng.gen::<f64>() < 0.15 { 0 } else { rng.gen_range(1..40u32) }, "tick_span": rng.gen_range(1..30u32),
                 "vol_lo": rng.gen_range(1..20u32), "vol_span": rng.gen_range(1..20u32), "id0": rng.gen_range(0..50u32),
                 "decay": decay, "order_ratio": *pick(&mut rng, &[0.0, 0.5, 1.0, 2.0]),
                 "demand_mult": *pick(&mut rng, &[1.0, 2.0, 4.0]),
@@ -160,7 +160,11 @@ fn main() {
         let sign: i64 = if reflected { -1 } else { 1 };
 
         let off = c["off"].as_bool().unwrap_or(false);
-        let mut world = if multi { World::W2(MarketEnv::<2, 10>::new(0, [tick, tick], 1000, !off)) } else { World::W1(Env::new(0, tick, 1000, !off)) };
+        // multi-asset: the asset the agent trades has the agent's tick size, the OTHER asset a tick size coprime to it (the assets of
+        // a market are independent books: nothing an agent does may depend on another asset's configuration)
+        let mut ticks2 = [tick, tick];
+        ticks2[1 - asset.min(1)] = tick + 1;
+        let mut world = if multi { World::W2(MarketEnv::<2, 10>::new(0, ticks2, 1000, !off)) } else { World::W1(Env::new(0, tick, 1000, !off)) };
         let inner = R::seed_from_u64(c["agent_seed"].as_u64().unwrap());
         let script: Vec<u64> = if c["scripted"].as_bool().unwrap() && !mirror { c["script"].as_array().unwrap().iter().map(|x| x.as_u64().unwrap()).collect() } else { vec![] };
         let mut arng = Scripted::new(script, inner);
